@@ -55,7 +55,6 @@ func minputs() []input {
 		{k: "msg", m: obj("to", "timers", "deleteTimer", "relock-d1"), direct: true},
 		{k: "msg", m: obj("to", "timers", "makeTimer", obj("in", "1ms", "id", "x", "message", obj("to", "d1", "input", "coin"))), direct: true},
 		{k: "msg", m: obj("to", "timers", "makeTimer", obj("in", "soon", "id", "y", "message", float64(1))), direct: true},
-		{k: "msg", m: obj("to", "timers", "makeTimer", obj("in", "1ms", "message", obj("to", "t1", "input", "coin"))), direct: true},
 		{k: "rem", mid: "d1"},
 	}
 }
